@@ -305,6 +305,26 @@ def check_lex(case, out):
                     out.dim('non-xpath-error', '%s:%s' % (o[0], o[1]))
             if oc[0] == 'ok' and oc[1] is False:
                 out.dim('error_code', of[1] if of[0] == 'err' else of[0])
+            # xs:untypedAtomic sources follow exactly the rules of xs:string sources (F&O 17.1.1 / 19.2)
+            if fam not in ('QName', 'NOTATION'):
+                uvars = {'u': dt.UntypedAtomic(s)}
+                uc = xp(ver, x, '$u castable as xs:%s' % T, uvars)
+                uf = xp(ver, x, 'xs:%s($u)' % T, uvars)
+                ua = xp(ver, x, '$u cast as xs:%s' % T, uvars)
+                out.dim('untyped_source_comparisons', fam, 3)
+                ub = uc[0] == 'ok' and uc[1] is True
+                if (ub, ok(uf), ok(ua)) != (bc, ok(of), ok(oa)):
+                    out.fail('C10/untyped-source/%s/success-differs-from-string-source' % fam,
+                             {'type': T, 's': s, 'xpath': ver, 'xsd': x,
+                              'string: castable/constructor/cast': [describe_o(oc), describe_o(of), describe_o(oa)],
+                              'untypedAtomic: castable/constructor/cast': [describe_o(uc), describe_o(uf), describe_o(ua)]})
+                else:
+                    for so, uo, nm in ((of, uf, 'constructor'), (oa, ua, 'cast')):
+                        if ok(so) and ok(uo) and not same(fp(T, so[1], x), fp(T, uo[1], x)):
+                            out.fail('C10/untyped-source/%s/value-differs-from-string-source' % fam,
+                                     {'type': T, 's': s, 'xpath': ver, 'xsd': x, 'observer': nm,
+                                      'from string': show(fp(T, so[1], x)), 'from untypedAtomic': show(fp(T, uo[1], x))})
+                            break
         groups['xpath'] = xres
         out.dim('observer', 'class-level', 3)
         observed.append('%s:%s ctor=%s is_valid=%s xpath=%s' % (xsd, st, ok(obs['ctor']), groups['is_valid'][0],
